@@ -1,2 +1,3 @@
 //! Reference models: plain Rust, no nom, nothing shared with the crate under test.
 pub mod states;
+pub mod iana;
